@@ -4,12 +4,15 @@ import (
 	"encoding/json"
 	"fmt"
 	"math/big"
+	"sort"
 	"strings"
 
 	storetypes "cosmossdk.io/store/types"
 	sdk "github.com/cosmos/cosmos-sdk/types"
 
 	orbiter "github.com/noble-assets/orbiter/v2"
+	orbitertypes "github.com/noble-assets/orbiter/v2/types"
+	"github.com/noble-assets/orbiter/v2/types/core"
 
 	"orbverif/fw"
 	"orbverif/jm"
@@ -119,6 +122,10 @@ func roundTripAt(e *fw.Env, l *Lab, ctx sdk.Context, hist any, withFreshWorld bo
 		e.Res.Violate(fw.Violation{Property: "C17", Kind: "exported-genesis-fails-validation", Detail: err.Error(), Witness: wtn})
 		return false
 	}
+	// the behaviour of the original state is recorded before the re-import runs on the same
+	// application object (anything the keeper remembers outside the store would be refreshed by it)
+	probes := l.probeSet()
+	b1 := behaviour(e, l, ctx, probes)
 	re, _ := ctx.CacheContext()
 	wipeOrbiterStore(w, re)
 	if err := initOrbiter(w, re, doc); err != nil {
@@ -137,8 +144,6 @@ func roundTripAt(e *fw.Env, l *Lab, ctx sdk.Context, hist any, withFreshWorld bo
 		return false
 	}
 	// behaviour: same probes on original and re-imported state
-	probes := l.probeSet()
-	b1 := behaviour(e, l, ctx, probes)
 	b2 := behaviour(e, l, re, probes)
 	if b1 != b2 {
 		e.Res.Violate(fw.Violation{Property: "C17", Kind: "behaviour-differs-after-re-import", Detail: firstDiffLine(b1, b2), Witness: wtn})
@@ -236,6 +241,18 @@ func genesisMutations(e *fw.Env, doc []byte) []struct{ Kind, Doc string } {
 							el = fmt.Sprintf(`{"source_id":{"protocol_id":"%s","counterparty_id":%s},"destination_id":{"protocol_id":"PROTOCOL_INTERNAL","counterparty_id":%s},"count":"3"}`, sp, cj, cj)
 						}
 						add("append-stat:"+sp+":"+c, jm.AppendElem(root, st.Path, jm.RawText(el)))
+					}
+				}
+				for _, dp := range []string{"PROTOCOL_CCTP", "PROTOCOL_HYPERLANE", "PROTOCOL_INTERNAL", "PROTOCOL_IBC"} {
+					for _, c := range append([]string{"7", "007", "+7", "0x7", "7 ", "4294967303"}, hostileStrings...) {
+						cj, _ := json.Marshal(c)
+						var el string
+						if isAmt {
+							el = fmt.Sprintf(`{"source_id":{"protocol_id":"PROTOCOL_IBC","counterparty_id":"channel-77"},"destination_id":{"protocol_id":"%s","counterparty_id":%s},"denom":"uusdc","amount_dispatched":{"incoming":"5","outgoing":"4"}}`, dp, cj)
+						} else {
+							el = fmt.Sprintf(`{"source_id":{"protocol_id":"PROTOCOL_IBC","counterparty_id":"channel-77"},"destination_id":{"protocol_id":"%s","counterparty_id":%s},"count":"3"}`, dp, cj)
+						}
+						add("append-stat-dest:"+dp+":"+c, jm.AppendElem(root, st.Path, jm.RawText(el)))
 					}
 				}
 			}
@@ -361,10 +378,110 @@ func CheckC17(e *fw.Env, l *Lab) {
 				Witness: map[string]any{"mutation": m.Kind, "doc": trunc(m.Doc, 2500)}})
 			continue
 		}
+		// ... and what was initialised is what the document lists: every entry (by key) is
+		// reported by the export, and nothing else
+		if want, err := genesisEntries(w, []byte(m.Doc)); err == nil {
+			got, _ := genesisEntries(w, exportOrbiter(w, ctx))
+			if miss, extra := setDiff(want, got); len(miss)+len(extra) > 0 {
+				e.Res.Violate(fw.Violation{Property: "C17", Kind: "genesis-entries-dropped", Tags: map[string]string{"class": strings.SplitN(m.Kind, ":", 2)[0]},
+					Detail:  fmt.Sprintf("document (%s) is accepted and initialised, but the state then lacks %v and has in addition %v", strings.SplitN(m.Kind, ":", 2)[0], firstN(miss, 4), firstN(extra, 4)),
+					Witness: map[string]any{"mutation": m.Kind, "doc": trunc(m.Doc, 2500)}})
+				continue
+			}
+		}
 		e.Res.Count("generated:validated-and-initialised")
 		e.Res.Sig("generated|%s|initialised", strings.SplitN(m.Kind, "=", 2)[0])
 	}
 	_ = big.NewInt
+	permutedGenesisC17(e, l, lastDoc)
+	if e.Shard == 2%e.Shards {
+		largeGenesisC17(e, l)
+	}
+}
+
+// permutedGenesisC17: a document whose lists hold the same (distinct) entries in another order
+// is the same genesis: it gets the same verdict from validation and initialises to the same
+// state as the exported, sorted document.
+func permutedGenesisC17(e *fw.Env, l *Lab, doc []byte) {
+	w := l.W
+	root, err := jm.Parse(string(doc))
+	if err != nil {
+		return
+	}
+	type cand struct {
+		kind      string
+		ref, perm *jm.Node
+	}
+	var cs []cand
+	for _, st := range jm.Sites(root) {
+		if st.Kind != jm.Arr {
+			continue
+		}
+		orig, _ := jm.At(root, st.Path)
+		ref := root
+		switch {
+		case strings.HasSuffix(st.Name, "paused_action_ids"):
+			ref = jm.Replace(root, st.Path, jm.Array(jm.S("ACTION_FEE"), jm.S("ACTION_SWAP")))
+		case strings.HasSuffix(st.Name, "paused_protocol_ids"):
+			ref = jm.Replace(root, st.Path, jm.Array(jm.S("PROTOCOL_IBC"), jm.S("PROTOCOL_CCTP"), jm.S("PROTOCOL_HYPERLANE")))
+		default:
+			if len(orig.Vals) < 2 {
+				continue
+			}
+		}
+		cur, _ := jm.At(ref, st.Path)
+		rev := cur.Clone()
+		for i, j := 0, len(rev.Vals)-1; i < j; i, j = i+1, j-1 {
+			rev.Vals[i], rev.Vals[j] = rev.Vals[j], rev.Vals[i]
+		}
+		cs = append(cs, cand{"reversed:" + st.Name, ref, jm.Replace(ref, st.Path, rev)})
+		sh := cur.Clone()
+		e.R.Shuffle(len(sh.Vals), func(i, j int) { sh.Vals[i], sh.Vals[j] = sh.Vals[j], sh.Vals[i] })
+		cs = append(cs, cand{"shuffled:" + st.Name, ref, jm.Replace(ref, st.Path, sh)})
+	}
+	for i, c := range cs {
+		if !e.Mine(i) {
+			continue
+		}
+		e.Res.Eval()
+		e.Log(map[string]any{"genesis_permutation": c.kind})
+		refDoc, permDoc := []byte(c.ref.String()), []byte(c.perm.String())
+		errRef, errPerm := validateOrbiter(w, refDoc), validateOrbiter(w, permDoc)
+		if errRef != nil {
+			e.Res.Count("permuted:reference-refused")
+			continue
+		}
+		wit := map[string]any{"permutation": c.kind, "doc": trunc(string(permDoc), 2500)}
+		if errPerm != nil {
+			e.Res.Violate(fw.Violation{Property: "C17", Kind: "genesis-order-sensitive", Tags: map[string]string{"at": "validate"},
+				Detail: "the same entries in another order are refused by validation: " + trunc(errPerm.Error(), 200), Witness: wit})
+			continue
+		}
+		exp := func(d []byte) (string, error) {
+			ctx, _ := l.Base.CacheContext()
+			wipeOrbiterStore(w, ctx)
+			if err := initOrbiter(w, ctx, d); err != nil {
+				return "", err
+			}
+			return canonJSON(exportOrbiter(w, ctx)), nil
+		}
+		a, errA := exp(refDoc)
+		b, errB := exp(permDoc)
+		switch {
+		case errA != nil:
+			e.Res.Count("permuted:reference-not-initialised")
+		case errB != nil:
+			e.Res.Violate(fw.Violation{Property: "C17", Kind: "validated-genesis-fails-to-initialise", Tags: map[string]string{"class": genesisFailClass(errB.Error())},
+				Detail: "the same entries in another order do not initialise: " + trunc(errB.Error(), 200), Witness: wit})
+		case a != b:
+			e.Res.Violate(fw.Violation{Property: "C17", Kind: "genesis-order-sensitive", Tags: map[string]string{"at": "init"},
+				Detail:  "a document with the same entries in another order initialises to a different state: " + firstDiffAt(a, b),
+				Witness: wit})
+		default:
+			e.Res.Count("permuted:same-state")
+			e.Res.Sig("permuted|%s", c.kind)
+		}
+	}
 }
 
 func genesisFailClass(msg string) string {
@@ -377,4 +494,129 @@ func genesisFailClass(msg string) string {
 		return "nil-pointer"
 	}
 	return "other"
+}
+
+func firstDiffAt(a, b string) string {
+	i := 0
+	for i < len(a) && i < len(b) && a[i] == b[i] {
+		i++
+	}
+	lo := i - 80
+	if lo < 0 {
+		lo = 0
+	}
+	return fmt.Sprintf("at byte %d: %q vs %q", i, trunc(a[lo:], 200), trunc(b[lo:], 200))
+}
+
+// genesisEntries lists the entries of a genesis document by key (typed decoding, so that
+// numeric and symbolic spellings of identifiers coincide). Zero-valued statistics are left out.
+func genesisEntries(w *world.World, doc []byte) (out map[string]string, err error) {
+	defer func() {
+		if r := recover(); r != nil {
+			err = fmt.Errorf("panic: %v", r)
+		}
+	}()
+	var gs orbitertypes.GenesisState
+	if err := w.Cdc.UnmarshalJSON(doc, &gs); err != nil {
+		return nil, err
+	}
+	out = map[string]string{}
+	id := func(c *core.CrossChainID) string {
+		if c == nil {
+			return "nil"
+		}
+		return fmt.Sprintf("%d|%q", c.ProtocolId, c.CounterpartyId)
+	}
+	if gs.AdapterGenesis != nil {
+		out["params"] = fmt.Sprint(gs.AdapterGenesis.Params.MaxPassthroughPayloadSize)
+	}
+	if gs.DispatcherGenesis != nil {
+		for _, a := range gs.DispatcherGenesis.DispatchedAmounts {
+			if a.AmountDispatched.Incoming.IsNil() || a.AmountDispatched.Outgoing.IsNil() || (a.AmountDispatched.Incoming.IsZero() && a.AmountDispatched.Outgoing.IsZero()) {
+				continue
+			}
+			out["amount|"+id(a.SourceId)+"|"+id(a.DestinationId)+"|"+a.Denom] = a.AmountDispatched.Incoming.String() + "/" + a.AmountDispatched.Outgoing.String()
+		}
+		for _, c := range gs.DispatcherGenesis.DispatchedCounts {
+			if c.Count == 0 {
+				continue
+			}
+			out["count|"+id(c.SourceId)+"|"+id(c.DestinationId)] = fmt.Sprint(c.Count)
+		}
+	}
+	if gs.ForwarderGenesis != nil {
+		for _, p := range gs.ForwarderGenesis.PausedProtocolIds {
+			out[fmt.Sprintf("paused-protocol|%d", p)] = ""
+		}
+		for _, c := range gs.ForwarderGenesis.PausedCrossChainIds {
+			out["paused-cross-chain|"+id(c)] = ""
+		}
+	}
+	if gs.ExecutorGenesis != nil {
+		for _, a := range gs.ExecutorGenesis.PausedActionIds {
+			out[fmt.Sprintf("paused-action|%d", a)] = ""
+		}
+	}
+	return out, nil
+}
+
+func setDiff(want, got map[string]string) (missing, extra []string) {
+	for k, v := range want {
+		if g, ok := got[k]; !ok || g != v {
+			missing = append(missing, k+"="+v)
+		}
+	}
+	for k, v := range got {
+		if _, ok := want[k]; !ok {
+			extra = append(extra, k+"="+v)
+		}
+	}
+	sort.Strings(missing)
+	sort.Strings(extra)
+	return
+}
+
+// largeGenesisC17: documents with more entries per list than any default page size (100).
+func largeGenesisC17(e *fw.Env, l *Lab) {
+	w := l.W
+	for _, n := range []int{99, 100, 101, 150, 260} {
+		var amounts, counts, paused []string
+		for k := 0; k < n; k++ {
+			src := fmt.Sprintf(`{"protocol_id":"PROTOCOL_IBC","counterparty_id":"channel-%d"}`, k%17)
+			dst := fmt.Sprintf(`{"protocol_id":"%s","counterparty_id":"%d"}`, []string{"PROTOCOL_CCTP", "PROTOCOL_HYPERLANE"}[k%2], k/17)
+			amounts = append(amounts, fmt.Sprintf(`{"source_id":%s,"destination_id":%s,"denom":"%s","amount_dispatched":{"incoming":"%d","outgoing":"%d"}}`, src, dst, []string{"uusdc", "uusdn"}[(k/2)%2], 1000+k, 900+k))
+			counts = append(counts, fmt.Sprintf(`{"source_id":%s,"destination_id":{"protocol_id":"PROTOCOL_INTERNAL","counterparty_id":"dest-%03d"},"count":"%d"}`, src, k, 1+k))
+			paused = append(paused, fmt.Sprintf(`{"protocol_id":"%s","counterparty_id":"%d"}`, []string{"PROTOCOL_CCTP", "PROTOCOL_HYPERLANE", "PROTOCOL_INTERNAL"}[k%3], 5000+k))
+		}
+		doc := []byte(fmt.Sprintf(`{"adapter_genesis":{"params":{"max_passthrough_payload_size":7}},"dispatcher_genesis":{"dispatched_amounts":[%s],"dispatched_counts":[%s]},"forwarder_genesis":{"paused_protocol_ids":["PROTOCOL_IBC"],"paused_cross_chain_ids":[%s]},"executor_genesis":{"paused_action_ids":["ACTION_FEE"]}}`,
+			strings.Join(amounts, ","), strings.Join(counts, ","), strings.Join(paused, ",")))
+		e.Res.Eval()
+		wtn := map[string]any{"entries_per_list": n}
+		if err := validateOrbiter(w, doc); err != nil {
+			e.Res.Violate(fw.Violation{Property: "C17", Kind: "well-formed-genesis-refused", Detail: fmt.Sprintf("document with %d distinct well-formed entries per list refused: %v", n, err), Witness: wtn})
+			continue
+		}
+		ctx, _ := l.Base.CacheContext()
+		wipeOrbiterStore(w, ctx)
+		if err := initOrbiter(w, ctx, doc); err != nil {
+			e.Res.Violate(fw.Violation{Property: "C17", Kind: "validated-genesis-fails-to-initialise", Tags: map[string]string{"class": "large"}, Detail: err.Error(), Witness: wtn})
+			continue
+		}
+		want, _ := genesisEntries(w, doc)
+		exp := exportOrbiter(w, ctx)
+		got, _ := genesisEntries(w, exp)
+		if miss, extra := setDiff(want, got); len(miss)+len(extra) > 0 {
+			e.Res.Violate(fw.Violation{Property: "C17", Kind: "genesis-entries-dropped", Tags: map[string]string{"class": "large"},
+				Detail: fmt.Sprintf("document with %d entries per list: the export after initialisation lacks %d entries (%v) and has %d others", n, len(miss), firstN(miss, 3), len(extra)), Witness: wtn})
+			continue
+		}
+		// and the export chain goes on: validate -> init -> export is a fixed point
+		re, _ := l.Base.CacheContext()
+		wipeOrbiterStore(w, re)
+		if err := initOrbiter(w, re, exp); err != nil || canonJSON(exportOrbiter(w, re)) != canonJSON(exp) {
+			e.Res.Violate(fw.Violation{Property: "C17", Kind: "re-export-differs", Tags: map[string]string{"class": "large"}, Detail: fmt.Sprintf("%d entries per list: %v", n, err), Witness: wtn})
+			continue
+		}
+		e.Res.Sig("large-genesis|%d", n)
+	}
 }
